@@ -267,7 +267,7 @@ flenp_buffer_to_sink_n(const LengthPrefixKind k,
     if (n > rest) {
         return -EINVAL;
     }
-    const int rc = flenp_memory_to_sink(k, sink, b->data + b->offset, n);
+    const ssize_t rc = flenp_memory_to_sink(k, sink, b->data + b->offset, n);
     b->offset += n;
     return rc;
 }
